@@ -40,6 +40,7 @@ impl Unit {
 props C02 C04 C05
 ret r
 rewrite R6 "(derived.vtable.powers)(powers, power)" => "call_vtable_powers(derived, powers, power)"
+ghost body-start proof { if !(self is Derived) { assert(udim(self, self) == 1); } }
 requires [unit.powers.pre] old(powers).wf() && power != 0 && -100000 <= power <= 100000 && pw_bounded(old(powers)@, 100_000_000)
 ensures [unit.powers.adds_dim C02 C04 C05] forall|k: Unit| pw_get(final(powers)@, k) == pw_get(old(powers)@, k) + power as int * udim(self, k)
 ensures [unit.powers.wf C02 C04] final(powers).wf()
